@@ -8,11 +8,13 @@ import (
 	"crypto/tls"
 	"crypto/x509"
 	"encoding/json"
+	"encoding/pem"
 	"fmt"
 	"net"
 	"os"
 	"os/exec"
 	"path/filepath"
+	"strings"
 	"sync"
 	"syscall"
 	"time"
@@ -20,6 +22,7 @@ import (
 	filesystem "github.com/wealdtech/go-eth2-wallet-store-filesystem"
 	"google.golang.org/grpc"
 	"google.golang.org/grpc/credentials"
+	"google.golang.org/grpc/metadata"
 
 	"verif/harness/vkit"
 )
@@ -32,6 +35,7 @@ const (
 	WA = "Wallet A"
 	WB = "Wallet B"
 	WD = "Wallet D" // distributed wallet, present on every instance
+	WC = "Wallet C" // lives in a second store
 )
 
 // InstanceName is the name (and loopback address) of instance i of a cluster: peers reach each other
@@ -43,8 +47,10 @@ type fixture struct {
 	world *vkit.World
 	ca    *vkit.CA
 	other *vkit.CA
-	creds map[string]*tls.Certificate
-	mu    sync.Mutex
+	// server is the authority that issued the single daemon's own certificate; it is not the configured client authority
+	server *vkit.CA
+	creds  map[string]*tls.Certificate
+	mu     sync.Mutex
 }
 
 var (
@@ -89,19 +95,38 @@ func getFixture() (*fixture, error) {
 		if fixErr != nil {
 			return
 		}
+		// a second filesystem store with one more wallet: the daemon is configured with both
+		w2, err := vkit.NewWorldIn(filesystem.New(filesystem.WithLocation(filepath.Join(f.dir, "wallets2"))), []vkit.WalletSpec{
+			{Name: WC, Accounts: []vkit.AccountSpec{{Name: "a", KeyIndex: 9105}}},
+		})
+		if err != nil {
+			fixErr = err
+
+			return
+		}
+		for _, a := range w2.Accounts {
+			f.world.Accounts = append(f.world.Accounts, a)
+			f.world.ByPath[a.Path()] = a
+		}
 		if f.ca, fixErr = vkit.NewCA("e2e authority"); fixErr != nil {
 			return
 		}
 		if f.other, fixErr = vkit.NewCA("e2e other authority"); fixErr != nil {
 			return
 		}
-		cert, key, err := f.ca.Leaf(vkit.LeafSpec{CN: ServerName, DNS: []string{ServerName, "localhost"}, IPs: []net.IP{net.ParseIP("127.0.0.1")},
+		// the single daemon's certificate comes from a separate server authority and is configured as a bundle
+		// (leaf followed by that authority's certificate); the configured client authority stays f.ca
+		if f.server, fixErr = vkit.NewCA("e2e server authority"); fixErr != nil {
+			return
+		}
+		cert, key, err := f.server.Leaf(vkit.LeafSpec{CN: ServerName, DNS: []string{ServerName, "localhost"}, IPs: []net.IP{net.ParseIP("127.0.0.1")},
 			NotBefore: time.Now().Add(-time.Hour), NotAfter: time.Now().Add(24 * time.Hour), EKU: []x509.ExtKeyUsage{x509.ExtKeyUsageServerAuth, x509.ExtKeyUsageClientAuth}})
 		if err != nil {
 			fixErr = err
 
 			return
 		}
+		cert = append(append([]byte{}, cert...), f.server.CertPEM...)
 		cd := filepath.Join(f.dir, "certs")
 		_ = os.MkdirAll(cd, 0o700)
 		files := map[string][]byte{"server.crt": cert, "server.key": key, "ca.crt": f.ca.CertPEM}
@@ -128,25 +153,54 @@ func getFixture() (*fixture, error) {
 	return fix, fixErr
 }
 
-// clientCert mints (once) a client certificate for the name, from the configured authority or from another one.
-func (f *fixture) clientCert(cn string, foreign bool) (*tls.Certificate, error) {
+// Cred is what a caller presents.
+type Cred struct {
+	CN     string   `json:"cn"`
+	Issuer string   `json:"issuer"` // "" no certificate | ca | other (another authority) | self (self-signed) | server (the authority that issued the server's certificate)
+	DNS    []string `json:"dns,omitempty"`
+	// Append names a certificate of the configured authority whose public part is appended to the presented chain
+	// (the caller does not hold its key): "cn:<name>" or "instance:<i>".
+	Append string `json:"append,omitempty"`
+}
+
+// clientCert mints (once) the certificate for the credential.
+func (f *fixture) clientCert(c Cred) (*tls.Certificate, error) {
 	f.mu.Lock()
 	defer f.mu.Unlock()
-	k := fmt.Sprintf("%s/%v", cn, foreign)
-	if c, ok := f.creds[k]; ok {
-		return c, nil
+	k := fmt.Sprintf("%s/%s/%v/%s", c.CN, c.Issuer, c.DNS, c.Append)
+	if crt, ok := f.creds[k]; ok {
+		return crt, nil
 	}
 	ca := f.ca
-	if foreign {
+	switch c.Issuer {
+	case "other", "self":
 		ca = f.other
+	case "server":
+		ca = f.server
 	}
-	certPEM, keyPEM, err := ca.Leaf(vkit.LeafSpec{CN: cn, NotBefore: time.Now().Add(-time.Hour), NotAfter: time.Now().Add(24 * time.Hour), EKU: []x509.ExtKeyUsage{x509.ExtKeyUsageClientAuth}})
+	certPEM, keyPEM, err := ca.Leaf(vkit.LeafSpec{CN: c.CN, DNS: c.DNS, SelfSigned: c.Issuer == "self", NotBefore: time.Now().Add(-time.Hour), NotAfter: time.Now().Add(24 * time.Hour),
+		EKU: []x509.ExtKeyUsage{x509.ExtKeyUsageClientAuth}})
 	if err != nil {
 		return nil, err
 	}
 	pair, err := tls.X509KeyPair(certPEM, keyPEM)
 	if err != nil {
 		return nil, err
+	}
+	if c.Append != "" {
+		var extra []byte
+		if strings.HasPrefix(c.Append, "instance:") {
+			extra, err = os.ReadFile(filepath.Join(f.dir, "certs", "instance"+strings.TrimPrefix(c.Append, "instance:")+".crt"))
+		} else {
+			extra, _, err = f.ca.Leaf(vkit.LeafSpec{CN: strings.TrimPrefix(c.Append, "cn:"), NotBefore: time.Now().Add(-time.Hour), NotAfter: time.Now().Add(24 * time.Hour),
+				EKU: []x509.ExtKeyUsage{x509.ExtKeyUsageClientAuth}})
+		}
+		if err != nil {
+			return nil, err
+		}
+		if blk, _ := pem.Decode(extra); blk != nil {
+			pair.Certificate = append(pair.Certificate, blk.Bytes)
+		}
 	}
 	f.creds[k] = &pair
 
@@ -163,6 +217,9 @@ type Config struct {
 	Cluster  bool              `json:"cluster,omitempty"`
 	Peers    map[string]string `json:"peers,omitempty"`
 	Port     string            `json:"port,omitempty"`
+	// RelStorage: storage-path is given relative ("protection"), which Dirk resolves against the base
+	// directory; every start of the process then happens from a different working directory.
+	RelStorage bool `json:"relative_storage_path,omitempty"`
 }
 
 // Daemon is one running dirk process on its own copy of the fixture.
@@ -172,6 +229,7 @@ type Daemon struct {
 	Addr   string
 	cfg    *Config
 	name   string
+	starts int
 	cmd    *exec.Cmd
 	exited chan error
 	log    string
@@ -238,6 +296,10 @@ func (d *Daemon) Start() error {
 			}
 		}
 		d.Addr, d.name = addr, name
+		storagePath := filepath.Join(d.Dir, "storage")
+		if d.cfg.RelStorage {
+			storagePath = "protection"
+		}
 		doc := map[string]any{
 			"log-level": "warn",
 			"log-file":  d.log,
@@ -245,12 +307,13 @@ func (d *Daemon) Start() error {
 				"rules": map[string]any{"admin-ips": d.cfg.AdminIPs}},
 			"certificates": map[string]any{"server-cert": fileURL(filepath.Join(d.Dir, "certs", crt+".crt")), "server-key": fileURL(filepath.Join(d.Dir, "certs", crt+".key")),
 				"ca-cert": fileURL(filepath.Join(d.Dir, "certs", "ca.crt"))},
-			"storage-path": filepath.Join(d.Dir, "storage"),
-			"stores":       []any{map[string]any{"name": "Local", "type": "filesystem", "location": filepath.Join(d.Dir, "wallets")}},
-			"peers":        peers,
-			"unlocker":     map[string]any{"account-passphrases": []string{fileURL(filepath.Join(d.Dir, "pass.txt"))}},
-			"process":      map[string]any{"generation-passphrase": fileURL(filepath.Join(d.Dir, "pass.txt"))},
-			"permissions":  d.cfg.Permissions,
+			"storage-path": storagePath,
+			"stores": []any{map[string]any{"name": "Local", "type": "filesystem", "location": filepath.Join(d.Dir, "wallets")},
+				map[string]any{"name": "Second", "type": "filesystem", "location": filepath.Join(d.Dir, "wallets2")}},
+			"peers":       peers,
+			"unlocker":    map[string]any{"account-passphrases": []string{fileURL(filepath.Join(d.Dir, "pass.txt"))}},
+			"process":     map[string]any{"generation-passphrase": fileURL(filepath.Join(d.Dir, "pass.txt"))},
+			"permissions": d.cfg.Permissions,
 		}
 		b, _ := json.MarshalIndent(doc, "", " ")
 		if err := os.WriteFile(filepath.Join(d.Dir, "dirk.json"), b, 0o600); err != nil {
@@ -258,6 +321,11 @@ func (d *Daemon) Start() error {
 		}
 		cmd := exec.Command(bin, "--base-dir", d.Dir)
 		cmd.Env = append(os.Environ(), "HOME="+d.Dir)
+		if d.cfg.RelStorage {
+			d.starts++
+			cmd.Dir = filepath.Join(d.Dir, fmt.Sprintf("cwd%d", d.starts))
+			_ = os.MkdirAll(cmd.Dir, 0o700)
+		}
 		out, err := os.OpenFile(filepath.Join(d.Dir, "stdout.log"), os.O_CREATE|os.O_WRONLY|os.O_APPEND, 0o600)
 		if err != nil {
 			return err
@@ -360,13 +428,14 @@ func (d *Daemon) Close() {
 	_ = os.RemoveAll(d.Dir)
 }
 
-// Dial opens a connection presenting a certificate for the name ("" = none; foreign = issued by another authority).
-func (d *Daemon) Dial(cn string, foreign bool) (*grpc.ClientConn, error) {
+// Dial opens a connection presenting the credential.
+func (d *Daemon) Dial(c Cred) (*grpc.ClientConn, error) {
 	pool := x509.NewCertPool()
 	pool.AppendCertsFromPEM(d.f.ca.CertPEM)
+	pool.AppendCertsFromPEM(d.f.server.CertPEM)
 	cfg := &tls.Config{RootCAs: pool, ServerName: d.name, MinVersion: tls.VersionTLS13}
-	if cn != "" {
-		pair, err := d.f.clientCert(cn, foreign)
+	if c.Issuer != "" {
+		pair, err := d.f.clientCert(c)
 		if err != nil {
 			return nil, err
 		}
@@ -376,15 +445,18 @@ func (d *Daemon) Dial(cn string, foreign bool) (*grpc.ClientConn, error) {
 	return grpc.NewClient(d.Addr, grpc.WithTransportCredentials(credentials.NewTLS(cfg)))
 }
 
-// Invoke makes one unary call on a fresh connection.
-func (d *Daemon) Invoke(cn string, foreign bool, method string, req, resp any) error {
-	conn, err := d.Dial(cn, foreign)
+// Invoke makes one unary call on a fresh connection; md is request metadata the caller adds (key, value, ...).
+func (d *Daemon) Invoke(c Cred, method string, req, resp any, md ...string) error {
+	conn, err := d.Dial(c)
 	if err != nil {
 		return err
 	}
 	defer conn.Close()
 	ctx, cancel := context.WithTimeout(context.Background(), 20*time.Second)
 	defer cancel()
+	if len(md) > 0 {
+		ctx = metadata.AppendToOutgoingContext(ctx, md...)
+	}
 
 	return conn.Invoke(ctx, method, req, resp)
 }
